@@ -114,9 +114,10 @@ func (h *h2Hist) mkCred(prefUser string) h2Cred {
 			c.pass = "wrong"
 			c.macOK = false
 		case 8: // flip one bit of the nonce
-			b := []byte(c.nonceVal)
-			b[h.rng.Intn(len(b))] ^= 1
-			c.nonceVal = string(b)
+			if b := []byte(c.nonceVal); len(b) > 0 {
+				b[h.rng.Intn(len(b))] ^= 1
+				c.nonceVal = string(b)
+			}
 			c.nonceOK = false
 		}
 	}
@@ -957,6 +958,7 @@ func runH2History(t *testing.T, vt *vhT, seed int64, nOps int) {
 			lis = append(lis, sl)
 		}
 		w := newH2World(vt, cfg, lis, withAuth, withQuota)
+		w.shortErr = rng.Intn(3) == 0 // what a too-long datagram looks like to the reader depends on the transport
 		h.w = w
 		var lidOf int
 		w.onCid = func(idx int, key string, bound bool) {
